@@ -86,6 +86,34 @@ fn gen_aff_nz(r: &mut Rng, m: usize, n: usize, pow2: bool) -> AffFunc {
     a
 }
 
+/// a square map with a structured matrix (identity / zero / signed permutation) and a random, mostly non-zero bias
+fn structured_aff(r: &mut Rng, n: usize) -> AffFunc {
+    let mut a = Array2::<f64>::zeros((n, n));
+    match r.below(4) {
+        0 | 1 => {
+            for i in 0..n {
+                a[[i, i]] = 1.0;
+            }
+        }
+        2 => {
+            let mut perm: Vec<usize> = (0..n).collect();
+            for i in (1..n).rev() {
+                let j = r.below(i + 1);
+                perm.swap(i, j);
+            }
+            for i in 0..n {
+                a[[i, perm[i]]] = if r.chance(1, 2) { 1.0 } else { -1.0 };
+            }
+        }
+        _ => {}
+    }
+    let mut b = gen_point(r, n);
+    if n > 0 && b.iter().all(|v| *v == 0.0) {
+        b[0] = 1.5;
+    }
+    AffFunc::from_mats(a, b)
+}
+
 fn pts_of(r: &mut Rng, f: &Option<AffFunc>, with_pts: bool) -> String {
     let mut out = Vec::new();
     if let (Some(f), true) = (f, with_pts) {
@@ -242,6 +270,17 @@ fn one_case(r: &mut Rng, id: usize, out: &mut String) {
             let mut f = gen_aff(r, m, n, 8);
             let gm = if mal { other_dim(r, n) } else { n };
             let mut g = gen_aff(r, gm, k, 8);
+            // the shapes an implementation is tempted to shortcut: an inner / outer map whose MATRIX is the identity
+            // (a translation: the bias still matters), a zero matrix, a signed permutation
+            if !mal && r.chance(1, 4) {
+                g = structured_aff(r, n);
+            }
+            if !mal && r.chance(1, 8) {
+                f = structured_aff(r, n);
+                if g.outdim() != n {
+                    g = gen_aff(r, n, k, 8);
+                }
+            }
             if r.chance(1, 5) {
                 // very different magnitudes, every product exact (see common::gen_aff_selection)
                 g = gen_aff_selection(r, gm, k);
